@@ -16,6 +16,9 @@ theorem flight_items_le_raw {C : Crypto} {s : Suite} {r : Half} {raw : Bytes} {i
   | ku _ hg _ ih =>
     obtain ⟨t, body, hrec, _⟩ := hg.framed
     simp [hrec]; omega
+  | skip hg _ ih =>
+    obtain ⟨t, body, hrec, _⟩ := hg.framed
+    simp [hrec]; omega
 
 /-- the first byte of the bytes in flight is never the `alert` content type. -/
 theorem flight_head_not_alert {C : Crypto} {s : Suite} {r : Half} {raw : Bytes} {items : List Item} {w : Half}
@@ -33,6 +36,11 @@ theorem flight_head_not_alert {C : Crypto} {s : Suite} {r : Half} {raw : Bytes} 
     show some (b t) ≠ _
     intro h; exact key t ht hta (Option.some.inj h)
   | ku _ hg _ =>
+    obtain ⟨t, body, hrec, _, ht, hta⟩ := hg.framed
+    rw [hrec]
+    show some (b t) ≠ _
+    intro h; exact key t ht hta (Option.some.inj h)
+  | skip hg _ =>
     obtain ⟨t, body, hrec, _, ht, hta⟩ := hg.framed
     rw [hrec]
     show some (b t) ≠ _
@@ -67,9 +75,21 @@ def FillOK (C : Crypto) (s : Suite) (Q : Half → List Bytes → Prop) (wout : H
     (p0 : Params) (oe : Option Err) (res : Fill) : Prop :=
   (∃ rd' sent rest, res = .ready rd' sent ∧ rd'.input ≠ [] ∧
       appBytes items = rd'.input ++ appBytes rest ∧ Flight C s rd'.inn rd'.raw rest wout ∧ rd'.hand = [] ∧
-      rd'.inErr = none ∧ rd'.p = p0 ∧ rd'.outErr = oe ∧ Q rd'.out sent) ∨
+      rd'.inErr = none ∧ rd'.p = p0 ∧ rd'.outErr = oe ∧ Q rd'.out sent ∧ okRuns rd'.retry rest ∧
+      ∃ pre, items = pre ++ rest) ∨
   (∃ rd' sent, res = .short rd' sent ∧ appBytes items = [] ∧ rd'.input = [] ∧ rd'.raw = [] ∧
       Sync s rd'.inn wout ∧ rd'.hand = [] ∧ rd'.inErr = none ∧ rd'.p = p0 ∧ rd'.outErr = oe ∧ Q rd'.out sent)
+
+/-- an item that carries no application bytes in front of the flight does not change the outcome. -/
+theorem FillOK.cons {C : Crypto} {s : Suite} {Q : Half → List Bytes → Prop} {wout : Half} {items : List Item}
+    {p0 : Params} {oe : Option Err} {res : Fill} (i : Item) (hi : appBytes [i] = [])
+    (h : FillOK C s Q wout items p0 oe res) : FillOK C s Q wout (i :: items) p0 oe res := by
+  have hab : appBytes (i :: items) = appBytes items := by
+    have := appBytes_append [i] items
+    simpa [hi] using this
+  rcases h with ⟨rd', sent, rest, h1, h2, h3, h4, h5, h6, h7, h8, h9, h10, pre, hpre⟩ | ⟨rd', sent, h1, h2, h3⟩
+  · exact Or.inl ⟨rd', sent, rest, h1, h2, by rw [hab]; exact h3, h4, h5, h6, h7, h8, h9, h10, i :: pre, by rw [hpre]; rfl⟩
+  · exact Or.inr ⟨rd', sent, h1, by rw [hab]; exact h2, h3⟩
 
 /-- **the reader loop over a flight.** `Q` is any property of (this endpoint's outgoing half, the
 records it has emitted) that sending a KeyUpdate response preserves. The loop never fails: it ends
@@ -80,28 +100,28 @@ theorem fill_flight (C : Crypto) (s : Suite) (hs : s.WF) (Q : Half → List Byte
       (sent ++ [(encrypt C s out tHs (keyUpdateMsg false)).1]))
     {r : Half} {raw : Bytes} {items : List Item} {wout : Half} (hF : Flight C s r raw items wout) :
     ∀ (f : Nat) (rd : Conn) (acc : List Bytes), rd.inn = r → rd.raw = raw → items.length < f → rd.input = [] →
-      rd.hand = [] → rd.inErr = none → rd.p.s = s → Q rd.out acc →
+      rd.hand = [] → rd.inErr = none → rd.p.s = s → Q rd.out acc → okRuns rd.retry items →
       FillOK C s Q wout items rd.p rd.outErr (fill C f rd acc) := by
   induction hF with
   | nil hsy =>
-    intro f rd acc hinn hraw hf hin hh he hp hq
+    intro f rd acc hinn hraw hf hin hh he hp hq _
     obtain ⟨f', rfl⟩ : ∃ f', f = f' + 1 := ⟨f - 1, by omega⟩
     right
     refine ⟨rd, acc, ?_, rfl, hin, hraw, by rw [hinn]; exact hsy, hh, he, rfl, rfl, hq⟩
     rw [fill_succ_empty C f' rd acc hin, readRecord_empty C rd hraw he]
   | @app r0 r' w rec raw' items' d hg hne hd hF' ih =>
-    intro f rd acc hinn hraw hf hin hh he hp hq
+    intro f rd acc hinn hraw hf hin hh he hp hq hok
     obtain ⟨f', rfl⟩ : ∃ f', f = f' + 2 := ⟨f - 2, by simp at hf; omega⟩
     left
     have hrr := readRecord_genuine C rd rec raw' d tApp r' (by rw [hp]; exact hs) (by rw [hp, hinn]; exact hg) hraw he
     rw [afterDecrypt_app C _ d r' hd hne (by intro _; exact hh)] at hrr
     refine ⟨{ rd with raw := raw', inn := r', retry := 0, input := d }, acc ++ [], items', ?_, hne, rfl, hF', hh, he, rfl, rfl,
-      by simpa using hq⟩
+      by simpa using hq, hok, [.app d], rfl⟩
     rw [fill_succ_empty C (f' + 1) rd acc hin, hrr]
     simp only [hh, List.length_nil, drainHand]
     rw [fill_succ_ready C f' _ _ hne]
   | @ku r0 r' w rec raw' items' req hv hg hF' ih =>
-    intro f rd acc hinn hraw hf hin hh he hp hq
+    intro f rd acc hinn hraw hf hin hh he hp hq hok
     obtain ⟨f', rfl⟩ : ∃ f', f = f' + 1 := ⟨f - 1, by omega⟩
     have hrr := readRecord_genuine C rd rec raw' (keyUpdateMsg req) tHs r' (by rw [hp]; exact hs) (by rw [hp, hinn]; exact hg) hraw he
     rw [afterDecrypt_hs C _ _ r' (by simp [keyUpdateMsg]; decide) (by simp [keyUpdateMsg])] at hrr
@@ -118,14 +138,16 @@ theorem fill_flight (C : Crypto) (s : Suite) (hs : s.WF) (Q : Half → List Byte
     have hc2p : c2.p = rd.p := by rw [← hc2, ← hc1]
     have hc2out : c2.out = rd.out := by rw [← hc2, ← hc1]
     have hc2oe : c2.outErr = rd.outErr := by rw [← hc2, ← hc1]
+    have hc2r : c2.retry = 1 := by rw [← hc2]
     cases req with
     | false =>
       simp only [Bool.false_eq_true, if_false]
       have := ih f' c2 (acc ++ [])
         (by rw [← hc2, ← hc1]) (by rw [← hc2, ← hc1]) (by simp at hf; omega) (by rw [← hc2, ← hc1]; exact hin) (by rw [← hc2])
         (by rw [← hc2, ← hc1]; exact he) (by rw [hc2p]; exact hp) (by rw [hc2out]; simpa using hq)
+        (by rw [hc2r]; exact hok)
       rw [hc2p, hc2oe] at this
-      simpa [FillOK, appBytes] using this
+      exact FillOK.cons _ rfl this
     | true =>
       simp only [if_true]
       have hoo := sendKeyUpdate_outOnly C c2 false
@@ -139,9 +161,20 @@ theorem fill_flight (C : Crypto) (s : Suite) (hs : s.WF) (Q : Half → List Byte
       have := ih f' sk.2 (acc ++ [] ++ sk.1)
         (by rw [hoo.inn, ← hc2, ← hc1]) (by rw [hoo.raw, ← hc2, ← hc1]) (by simp at hf; omega)
         (by rw [hoo.input, ← hc2, ← hc1]; exact hin) (by rw [hoo.hand, ← hc2]) (by rw [hoo.inErr, ← hc2, ← hc1]; exact he)
-        (by rw [hoo.p, hc2p]; exact hp) hq'
+        (by rw [hoo.p, hc2p]; exact hp) hq' (by rw [hoo.retry, hc2r]; exact hok)
       rw [hoo.p, hc2p, hoo.outErr, hc2oe] at this
-      simpa [FillOK, appBytes] using this
+      exact FillOK.cons _ rfl this
+  | @skip r0 r' w rec raw' items' hg hF' ih =>
+    intro f rd acc hinn hraw hf hin hh he hp hq hok
+    obtain ⟨f', rfl⟩ : ∃ f', f = f' + 1 := ⟨f - 1, by omega⟩
+    have hrr := readRecord_genuine C rd rec raw' [] tApp r' (by rw [hp]; exact hs) (by rw [hp, hinn]; exact hg) hraw he
+    rw [afterDecrypt_app_empty C _ r' (by intro _; exact hh)] at hrr
+    rw [retryStep_ok C ({ ({ rd with raw := raw' } : Conn) with inn := r' }) hok.1] at hrr
+    rw [fill_succ_empty C f' rd acc hin, hrr]
+    simp only [hh, List.length_nil, drainHand]
+    have := ih f' { rd with raw := raw', inn := r', retry := rd.retry + 1, hand := [] } (acc ++ [])
+      rfl rfl (by simp at hf; omega) hin rfl he hp (by simpa using hq) hok.2
+    exact FillOK.cons _ rfl this
 
 /-- **`Read(buf)` over a flight**: no error; the bytes returned are the next bytes of
 (`input` ‖ chunks in flight); what is left is again a flight; progress when anything is pending. -/
@@ -149,12 +182,12 @@ theorem read_flight (C : Crypto) (s : Suite) (hs : s.WF) (Q : Half → List Byte
     (hQ : s.vers = v13 → ∀ out sent, Q out sent → Q (rekey C (encrypt C s out tHs (keyUpdateMsg false)).2)
       (sent ++ [(encrypt C s out tHs (keyUpdateMsg false)).1]))
     (rd : Conn) (n : Nat) (items : List Item) (wout : Half) (hF : Flight C s rd.inn rd.raw items wout)
-    (hh : rd.hand = []) (he : rd.inErr = none) (hp : rd.p.s = s) (hq : Q rd.out []) :
+    (hh : rd.hand = []) (he : rd.inErr = none) (hp : rd.p.s = s) (hq : Q rd.out []) (hok : okRuns rd.retry items) :
     (read C rd n).err = none ∧
     ∃ rest, rd.input ++ appBytes items = (read C rd n).data ++ (read C rd n).c.input ++ appBytes rest ∧
       Flight C s (read C rd n).c.inn (read C rd n).c.raw rest wout ∧ (read C rd n).c.hand = [] ∧
       (read C rd n).c.inErr = none ∧ (read C rd n).c.p = rd.p ∧ (read C rd n).c.outErr = rd.outErr ∧
-      Q (read C rd n).c.out (read C rd n).sent ∧
+      Q (read C rd n).c.out (read C rd n).sent ∧ okRuns (read C rd n).c.retry rest ∧ (∃ pre, items = pre ++ rest) ∧
       (0 < n → rd.input ++ appBytes items ≠ [] → (read C rd n).data ≠ []) ∧
       ((read C rd n).c.raw = [] → (read C rd n).c.input = [] → Sync s (read C rd n).c.inn wout) := by
   have hsyncOf : ∀ {r : Half} {raw : Bytes} {it : List Item}, Flight C s r raw it wout → raw = [] → Sync s r wout := by
@@ -167,11 +200,14 @@ theorem read_flight (C : Crypto) (s : Suite) (hs : s.WF) (Q : Half → List Byte
     | ku _ hg _ =>
       obtain ⟨t, body, hrec, _⟩ := hg.framed
       rw [hrec] at hraw; simp [hdr] at hraw
+    | skip hg _ =>
+      obtain ⟨t, body, hrec, _⟩ := hg.framed
+      rw [hrec] at hraw; simp [hdr] at hraw
   by_cases hn : n = 0
   · subst hn
     have hres : read C rd 0 = ⟨[], none, false, rd, []⟩ := by simp [read]
     rw [hres]
-    exact ⟨rfl, items, by simp, hF, hh, he, rfl, rfl, hq, fun h => absurd h (Nat.lt_irrefl 0),
+    exact ⟨rfl, items, by simp, hF, hh, he, rfl, rfl, hq, hok, ⟨[], rfl⟩, fun h => absurd h (Nat.lt_irrefl 0),
       fun hr _ => hsyncOf hF hr⟩
   · have hnpos : 0 < n := Nat.pos_of_ne_zero hn
     -- the tail of `read` once the loop has produced a connection with non-empty input
@@ -191,14 +227,14 @@ theorem read_flight (C : Crypto) (s : Suite) (hs : s.WF) (Q : Half → List Byte
       exact flight_head_not_alert hFl h3
     by_cases hin : rd.input = []
     · have hfo := fill_flight C s hs Q hQ hF (rd.raw.length + 1) rd [] rfl rfl
-        (Nat.lt_succ_of_le (flight_items_le_raw hF)) hin hh he hp hq
-      rcases hfo with ⟨rd', sent, rest, hfill, hne, hab, hF', hh', he', hp', hoe', hq'⟩ |
+        (Nat.lt_succ_of_le (flight_items_le_raw hF)) hin hh he hp hq hok
+      rcases hfo with ⟨rd', sent, rest, hfill, hne, hab, hF', hh', he', hp', hoe', hq', hok', hsuf⟩ |
         ⟨rd', sent, hfill, hab, hin', hraw', hsy', hh', he', hp', hoe', hq'⟩
       · have hres : read C rd n = ⟨rd'.input.take n, none, false, { rd' with input := rd'.input.drop n }, sent⟩ := by
           simp only [read, hn, if_false, hfill]
           exact tail rd' sent rest hne hF'
         rw [hres]
-        refine ⟨rfl, rest, ?_, hF', hh', he', hp', hoe', hq', ?_, fun hr _ => hsyncOf hF' hr⟩
+        refine ⟨rfl, rest, ?_, hF', hh', he', hp', hoe', hq', hok', hsuf, ?_, fun hr _ => hsyncOf hF' hr⟩
         · show rd.input ++ appBytes items = rd'.input.take n ++ rd'.input.drop n ++ appBytes rest
           rw [hin, List.nil_append, hab, List.take_append_drop]
         · intro _ _ h
@@ -208,7 +244,7 @@ theorem read_flight (C : Crypto) (s : Suite) (hs : s.WF) (Q : Half → List Byte
       · have hres : read C rd n = ⟨[], none, true, rd', sent⟩ := by
           simp only [read, hn, if_false, hfill]
         rw [hres]
-        refine ⟨rfl, [], ?_, by rw [hraw']; exact Flight.nil hsy', hh', he', hp', hoe', hq', ?_, fun _ _ => hsy'⟩
+        refine ⟨rfl, [], ?_, by rw [hraw']; exact Flight.nil hsy', hh', he', hp', hoe', hq', trivial, ⟨items, by simp⟩, ?_, fun _ _ => hsy'⟩
         · simp [hin, hab, hin', appBytes]
         · intro _ hne; rw [hin, hab] at hne; exact absurd rfl hne
     · have hfill : fill C (rd.raw.length + 1) rd [] = .ready rd [] := fill_succ_ready C _ rd [] hin
@@ -216,7 +252,7 @@ theorem read_flight (C : Crypto) (s : Suite) (hs : s.WF) (Q : Half → List Byte
         simp only [read, hn, if_false, hfill]
         exact tail rd [] items hin hF
       rw [hres]
-      refine ⟨rfl, items, ?_, hF, hh, he, rfl, rfl, hq, ?_, fun hr _ => hsyncOf hF hr⟩
+      refine ⟨rfl, items, ?_, hF, hh, he, rfl, rfl, hq, hok, ⟨[], rfl⟩, ?_, fun hr _ => hsyncOf hF hr⟩
       · show rd.input ++ appBytes items = rd.input.take n ++ rd.input.drop n ++ appBytes items
         rw [List.take_append_drop]
       · intro _ _ h
